@@ -247,9 +247,19 @@ func c08Compare(in []byte, r io.Reader, limit, mode int) {
 
 // ---------------------------------------------------------------- C16
 
-func H_C16(kind, a int) {
-	in := treeInput(kind, a)
-	blocks, refs, _ := parseStream(&oneShotReader{data: in})
+func H_C16(kind, a int) { c16(treeInput(kind, a), false) }
+
+// H_C16_cut: the document itself arrives in two reads cut at a solver-chosen position.
+func H_C16_cut(kind, a int) { c16(treeInput(kind, a), true) }
+
+func c16(in []byte, cut bool) {
+	var blocks []*RootBlock
+	var refs ReferenceMap
+	if cut {
+		blocks, refs, _ = parseStream(&cutReader{data: in, cut: vconcrete(nondetInt(0, len(in)))})
+	} else {
+		blocks, refs, _ = parseStream(&oneShotReader{data: in})
+	}
 	for i, rb := range blocks {
 		if rb.Kind() == ParagraphKind && i > 0 && blocks[i-1].Kind() == LinkReferenceDefinitionKind && blocks[i-1].EndOffset == rb.StartOffset {
 			continue // documented exception: continuation split off a definition
@@ -306,6 +316,44 @@ func H_C14_eol(kind, a int) {
 		} else {
 			check(vsame(eolToLF(h2), e1), "C14.eol.cr")
 		}
+	}
+	vdigest(h1)
+}
+
+// renderStreamCut renders the document parsed through the streaming entry point, the
+// input arriving in two reads cut at a solver-chosen position.
+func renderStreamCut(in []byte) []byte {
+	blocks, refs, _ := parseStream(&cutReader{data: in, cut: vconcrete(nondetInt(0, len(in)))})
+	return renderWith(&HTMLRenderer{ReferenceMap: refs}, blocks)
+}
+
+// H_C14_eol_stream: the line-ending clause through NewBlockParser/NextBlock, where a
+// CRLF pair (or a CR and the byte after it) can be split between two reads.
+func H_C14_eol_stream(kind, a int) {
+	x := treeInput(kind, a)
+	for _, c := range x {
+		assume(c != '\r')
+	}
+	h1, _ := renderPlain(cloneBytes(x), false)
+	e1 := eolToLF(h1)
+	style := vconcrete(nondetInt(0, 1))
+	var y []byte
+	for _, c := range x {
+		if c == '\n' {
+			if style == 0 {
+				y = append(y, '\r', '\n')
+			} else {
+				y = append(y, '\r')
+			}
+		} else {
+			y = append(y, c)
+		}
+	}
+	h2 := renderStreamCut(y)
+	if style == 0 {
+		check(vsame(eolToLF(h2), e1), "C14.eol.crlf.stream")
+	} else {
+		check(vsame(eolToLF(h2), e1), "C14.eol.cr.stream")
 	}
 	vdigest(h1)
 }
